@@ -573,6 +573,14 @@ func (e *Env) build(op *Op) (*Built, string) {
 			}
 		}
 		switch op.Mis {
+		case "xorder":
+			// a live shard of the accused that belongs to a different order / data model
+			for _, sid := range shardIDs(s.Order) {
+				sh := s.Order.Shards[sid]
+				if sh.Sp == acc.AddrS && sh.OrderId != f.OrderId && sh.Status == ordertypes.ShardCompleted {
+					f.ShardId = sid
+				}
+			}
 		case "order":
 			f.OrderId += 1
 		case "data":
